@@ -111,16 +111,6 @@ structure MarketInv (st : State) : Prop where
   known_iff : ∀ m, isMarketKnown st.kv m = true ↔ m ∈ st.accts.map Prod.fst
   accts_nodup : (st.accts.map Prod.fst).Nodup
 
-/-- `iterateOrderIndex` with the PROPOSED fix (not applied): an index entry counts only if exactly the 8
-order-id bytes follow the prefix -/
-def iterateOrderIndexFixed (s : Store) (pre : Bytes) : List (UInt64 × Nat) :=
-  (prefixStore s pre).filterMap fun e =>
-    if e.1.length = 8 then
-      (match e.2, parseIndexKeySuffixOrderID e.1 with
-       | .tbyte b, some id => some (id, b)
-       | _, _ => none)
-    else none
-
 /-! ### What a listing must return -/
 
 inductive OrderLookup
